@@ -143,8 +143,9 @@ package sql
 //@   modifies heap.all, ghost.all
 //@   ensures connection-leaves-the-transaction: tx.tx.conn.autoCommit
 //@ func (*ATTx).Rollback
-//@   prop C02
+//@   prop C02 C16
 //@   inline
+//@   ensures C16/rollback-outcome-is-the-transactions: called("(*Tx).Rollback#1") && !called("(*Tx).Rollback#2") && result == callres("(*Tx).Rollback#1", 0)
 //@   requires forall(i, 0, len(txHooks), txHooks[i] != nil)
 //@   requires tx != nil && tx.tx != nil && tx.tx.tranCtx != nil && tx.tx.conn != nil && tx.tx.target != nil
 //@   modifies heap.all, ghost.all
@@ -260,7 +261,8 @@ package sql
 // The base Tx is shared by AT (target = the driver's transaction) and XA (no target: XA START/END
 // replace BEGIN/COMMIT); its Rollback must be callable in both.
 //@ func (*Tx).Rollback
-//@   prop C17 C02
+//@   prop C17 C02 C16
+//@   ensures C16/outcome-is-the-target-drivers: tx.target != nil ==> called("(driver.Tx).Rollback#1") && !called("(driver.Tx).Rollback#2") && result == callres("(driver.Tx).Rollback#1", 0)
 //@   requires tx != nil && forall(i, 0, len(txHooks), txHooks[i] != nil)
 //@   modifies ghost.dtx
 //@   ensures xa-no-local-tx: tx.target == nil ==> ghost.dtx == old(ghost.dtx) && result == nil
@@ -363,7 +365,8 @@ package sql
 //@   ensures not-live-noop: auto || dead ==> ghost.xa_state == old(ghost.xa_state)
 
 //@ func (*XAConn).BeginTx
-//@   prop C17
+//@   prop C17 C16
+//@   ensures C16/plain-begin-outside-a-global-tx: !global ==> ghost.registers == 0 && ghost.xa_state == 0 && !called("start#1") && (result1 == nil ==> isT(result0, *Tx))
 //@   requires c != nil && c.Conn != nil && c.Conn.res != nil && c.Conn.targetConn != nil && c.Conn.txCtx != nil && ctx != nil
 //@   let cv := ctxvalue(ctx, tm.seataContextVariable)
 //@   requires cv != nil ==> isT(cv, *tm.ContextVariable) && cv.(*tm.ContextVariable) != nil
